@@ -48,7 +48,7 @@ func (r *run) floatInputs(lo, hi float64, thorough bool, nrand int) []float32 {
 			xs = append(xs, math.Float32frombits(uint32(int32(b)+d)))
 		}
 	}
-	for _, f := range []float64{lo, hi, 0, 1, -1, 0.005, 0.01, 0.015, 20.47, 20.48, 20.475, -20.48, -20.485, -20.49, 100, 360, 327.67, 327.68, -327.68, 3276.7, -3276.8, 670760, 670760.96, -671088.64, -273, -459.6} {
+	for _, f := range []float64{lo, hi, 0, 1, -1, -0.001, -0.004, -0.0049, -0.005, -0.0051, -0.01, 0.004, 0.005, 0.01, 0.015, 20.47, 20.48, 20.475, -20.48, -20.485, -20.49, 100, 360, 327.67, 327.68, -327.68, 3276.7, -3276.8, 670760, 670760.96, -671088.64, -273, -459.6} {
 		add(float32(f))
 	}
 	// neighbours of every exponent-switch point of the 16-bit float
